@@ -68,6 +68,13 @@ func checkC03(r *Run) {
 
 	c03Readmsg(r, rm)
 	c03ReadFcall(r, rf, rm)
+	// the overflow test and the discard compare the frame length with len(ch.rdbuf): both are right only while
+	// len(rdbuf) == msize, which newChannel establishes and SetMSize must preserve on every path
+	if sm, nc := r.P.Fn("p9p:(*channel).SetMSize"), r.P.Fn("p9p:newChannel"); sm != nil && nc != nil {
+		c10BufferInvariant(r, sm, nc)
+	} else {
+		r.Undecided("buffer-invariant", "SetMSize/newChannel", token.NoPos, "anchor not found")
+	}
 }
 
 // c03HeaderRead recognises the read of the length prefix and returns the call whose success guarantees the
